@@ -632,6 +632,6 @@ def later_mutation(it: Interp, save_ev: Event, data: Term) -> Optional[Event]:
             continue
         if e.kind == "store" and e.data["target"][0] == "sub" and strip_views(e.data["target"][1]) == obj:
             return e
-        if e.kind == "aug" and strip_views(e.data["old"]) == obj:
+        if e.kind == "aug" and not e.data.get("rebind") and strip_views(e.data["old"]) == obj:
             return e
     return None
